@@ -35,7 +35,27 @@ Fixpoint mon_run (W : nat) (sc : list (stim * obs)) (enq started fin : nat) (pur
       (running <=? W) && (negb exact || (running =? Nat.min (enq' - fin') W))
       && mon_run W rest enq' started' fin' pure' subs' errs'
   end.
-Definition mon_C09 (c : wcase) : bool := mon_run (n (c_W c)) (c_script c) 0 0 0 true false false.
+(* Back-pressure bounds on the log alone, while nothing has completed: the number of returned Enqueue calls never
+   exceeds L + 2W + 1, and while some call is blocked at a quiescent moment at least W + L + 1 have returned.  L is the
+   configured length, or the argument of a ResizeQueueLength issued before the first Enqueue; a later resize, a
+   completion, Dequeue, Stop or Break ends the clause. *)
+Fixpoint mon_bp (W L : nat) (sc : list (stim * obs)) (enq ret : nat) : bool :=
+  match sc with
+  | [] => true
+  | (st, o) :: rest =>
+      match st with
+      | SEnq _ _ _ =>
+          let enq' := S enq in
+          let ret' := ret + length (o_returned o) in
+          (ret' <=? L + 2 * W + 1) && ((enq' <=? ret') || (W + L + 1 <=? ret')) && mon_bp W L rest enq' ret'
+      | SResize l => if enq =? 0 then mon_bp W (n l) rest enq ret else true
+      | SAdj _ _ | SErrSub => mon_bp W L rest enq ret
+      | _ => true
+      end
+  end.
+Definition mon_C09 (c : wcase) : bool :=
+  mon_run (n (c_W c)) (c_script c) 0 0 0 true false false
+  && mon_bp (n (c_W c)) (n (c_L c)) (c_script c) 0 0.
 
 Definition case := wcase.
 Definition verdict (c : case) : nat :=
